@@ -70,6 +70,10 @@ inductive Sp where
   | optional (x : Sp)
   /-- `Union[X, Y]` / `AnyOf[X, Y]` / `X | Y` -/
   | union (x y : Sp) | anyOf (x y : Sp) | pipe (x y : Sp)
+  /-- the name of a Structure class (`Owner`); `d` = the declaration of that class, `len` = length of the name -/
+  | scls (d : FieldDecl) (len : Nat)
+  /-- two-element tuples: `tuple[X, Y]` / `typing.Tuple[X, Y]` / `Tuple[X, Y]` / `Tuple(items=[X, Y])` -/
+  | tup585 (x y : Sp) | tupTyping (x y : Sp) | tupSub (x y : Sp) | tupCall (x y : Sp)
 deriving Repr, Inhabited
 
 /-! ### Python objects that such expressions evaluate to -/
@@ -89,7 +93,14 @@ inductive Obj where
   | noneV
   /-- `type(None)` (what `typing` stores for `None` arguments) -/
   | noneTy
+  /-- a Structure class (`d` = its declaration; classes are compared by name) -/
+  | scls (d : FieldDecl)
 deriving Repr, Inhabited
+
+/-- the class name of a Structure class declaration -/
+def sclsName : FieldDecl → String
+  | .struct c _ _ => c.name
+  | _ => ""
 
 mutual
 /-- Python `==` / hash identity of such objects as far as `typing`'s de-duplication needs it:
@@ -103,6 +114,7 @@ def objEq : Obj → Obj → Bool
   | .finst _, _ => false
   | .noneV, w => match w with | .noneV => true | _ => false
   | .noneTy, w => match w with | .noneTy => true | _ => false
+  | .scls d, w => match w with | .scls d' => sclsName d == sclsName d' | _ => false
 termination_by structural x _ => x
 def objEqList : List Obj → List Obj → Bool
   | [], w => w.isEmpty
@@ -186,6 +198,12 @@ def isClassObj (tm : TypeMap) : Obj → Bool
   | .ty a => tm.isClass a
   | .fcls _ => true
   | .noneTy => true
+  | .scls _ => true
+  | _ => false
+
+/-- a Structure class (`isinstance(v, StructMeta)`): wrapped in a `ClassReference` wherever a field is expected -/
+def isSclsObj : Obj → Bool
+  | .scls _ => true
   | _ => false
 
 def isFieldObj : Obj → Bool
@@ -232,6 +250,8 @@ def gtli (tm : TypeMap) : Obj → R (Option FieldDecl)
     | none => .error .typeErr
     | some h => bindE (gtliArgs tm (h == .anyOf) ms) fun ds => someDecl (mkFromArgs h ds)
   | .noneV => .ok none
+  /- `isinstance(v, StructMeta)`: `ClassReference(v)` -/
+  | .scls d => .ok (some d)
 termination_by structural o => o
 /-- `_get_mapped_args` -/
 def gtliArgs (tm : TypeMap) (anyOfHead : Bool) : List Obj → R (List FieldDecl)
@@ -248,19 +268,44 @@ def getItemFallback (tm : TypeMap) (o : Obj) (r : R (Option FieldDecl)) : R Fiel
   | .ok (some d) => .ok d
   | _ => if isClassObj tm o then .error (.other "implicit-wrapper") else .error .typeErr
 
-/-- `FieldMeta.__getitem__(cls, val)`: what `Array[val]`, `AnyOf[val, …]`, `Field[val]` make of `val` -/
+/-- a PEP 604 `types.UnionType` whose FIRST member is a Structure class (`Owner | None`, `Owner | int`):
+    `convert_field_type_if_possible` looks at the first `__args__` member only, finds `Structure` in its mro and
+    returns the union unchanged -/
+def structFirstUnion : Obj → Bool
+  | .uType (.scls _ :: _) => true
+  | _ => false
+
+/-- `FieldMeta.__getitem__(cls, val)`: what `Array[val]`, `AnyOf[val, …]`, `Field[val]` make of `val`.
+    On a Structure-first PEP 604 union it calls itself with the unchanged value until the interpreter gives up
+    (finding `pep604-structure-first-nested`). -/
 def getItem (tm : TypeMap) (o : Obj) : R FieldDecl :=
   match o with
   | .finst d => .ok d
   | .fcls h => defaultDecl h
   | .noneV => .ok .noneF
-  | _ => getItemFallback tm o (gtli tm o)
+  /- `Structure in val.__mro__`: `ClassReference(val)` -/
+  | .scls d => .ok d
+  | _ => if structFirstUnion o then .error (.other "RecursionError") else getItemFallback tm o (gtli tm o)
 
 /-- `_map_to_field(item)`: the `items=` keyword -/
 def mapToField : Obj → R (Option FieldDecl)
   | .noneV => .ok none
   | .finst d => .ok (some d)
   | .fcls h => someDecl (defaultDecl h)
+  | .scls d => .ok (some d)
+  | _ => .error .typeErr
+
+/-- the `items=` keyword of `cls(items=X)`: `_map_to_field` for Array / Set / ImmutableSet / Deque; `Tuple.__init__`
+    has its own conversion, which knows Field classes and instances only (a Structure class is a TypeError there:
+    finding `tuple-items-structure-class`) -/
+def callItem (c : Coll) (o : Obj) : R (Option FieldDecl) :=
+  if c == .tuple && isSclsObj o then .error .typeErr else mapToField o
+
+/-- one entry of `Tuple(items=[…])` -/
+def tupleItem : Obj → R FieldDecl
+  | .finst d => .ok d
+  | .fcls h => defaultDecl h
+  | .noneV => .error (.other "AttributeError")
   | _ => .error .typeErr
 
 /-- `_or_fields`: a non-field right operand that is not `None` goes through `get_typing_lib_info`;
@@ -274,7 +319,7 @@ def orConverted (dl : FieldDecl) (r : R (Option FieldDecl)) : R Obj :=
 /-- `_or_fields(first, other)` -/
 def orFields (tm : TypeMap) (l r : Obj) : R Obj :=
   bindE (getItem tm l) fun dl =>
-  if isFieldObj r then bindE (getItem tm r) fun dr => .ok (.finst (.anyOf [dl, dr]))
+  if isFieldObj r || isSclsObj r then bindE (getItem tm r) fun dr => .ok (.finst (.anyOf [dl, dr]))
   else match r with
     | .noneV => .ok (.finst (.anyOf [dl, .noneF]))
     | _ => orConverted dl (gtli tm r)
@@ -285,6 +330,8 @@ def plainType (tm : TypeMap) : Obj → Bool
   | .ty a => tm.isClass a
   | .alias false _ _ => true
   | .uType _ => true
+  /- a Structure class is a class without an `__or__` of its own: `type.__or__` -/
+  | .scls _ => true
   | _ => false
 /-- right operands a plain type accepts without involving `typing` -/
 def plainRight (tm : TypeMap) : Obj → Bool
@@ -341,7 +388,7 @@ def ev (tm : TypeMap) : Sp → R Obj
     bindE (ev tm x) fun ox => bindE (getItem tm ox) fun d =>
     bindE (mkItems c.head [d]) fun r => .ok (.finst r)
   | .call c x =>
-    bindE (ev tm x) fun ox => bindE (mapToField ox) fun od =>
+    bindE (ev tm x) fun ox => bindE (callItem c ox) fun od =>
     bindE (mkFromArgs c.head od.toList) fun r => .ok (.finst r)
   | .dictBare => .ok (.ty .dict)
   | .tDictBare => .ok (.ty .tDict)
@@ -366,6 +413,18 @@ def ev (tm : TypeMap) : Sp → R Obj
     bindE (ev tm x) fun ox => bindE (ev tm y) fun oy =>
     bindE (getItem tm ox) fun dx => bindE (getItem tm oy) fun dy => .ok (.finst (.anyOf [dx, dy]))
   | .pipe x y => bindE (ev tm x) fun ox => bindE (ev tm y) fun oy => pipeObj tm ox oy
+  | .scls d _ => .ok (.scls d)
+  | .tup585 x y => bindE (ev tm x) fun ox => bindE (ev tm y) fun oy => .ok (.alias false .tuple [ox, oy])
+  | .tupTyping x y =>
+    bindE (ev tm x) fun ox => bindE (ev tm y) fun oy => .ok (.alias true .tuple [typingArg ox, typingArg oy])
+  | .tupSub x y =>
+    bindE (ev tm x) fun ox => bindE (ev tm y) fun oy =>
+    bindE (getItem tm ox) fun dx => bindE (getItem tm oy) fun dy =>
+    bindE (mkItems .tuple [dx, dy]) fun r => .ok (.finst r)
+  | .tupCall x y =>
+    bindE (ev tm x) fun ox => bindE (ev tm y) fun oy =>
+    bindE (tupleItem ox) fun dx => bindE (tupleItem oy) fun dy =>
+    bindE (mkItems .tuple [dx, dy]) fun r => .ok (.finst r)
 termination_by structural s => s
 
 /-! ### length of the annotation text (what `from __future__ import annotations` stores) -/
@@ -409,6 +468,11 @@ def annLen : Sp → Nat
   | .union x y => 9 + annLen x + annLen y
   | .anyOf x y => 9 + annLen x + annLen y
   | .pipe x y => annLen x + 3 + annLen y + (if isPipe y then 2 else 0)
+  | .scls _ n => n
+  | .tup585 x y => 9 + annLen x + annLen y
+  | .tupTyping x y => 16 + annLen x + annLen y
+  | .tupSub x y => 9 + annLen x + annLen y
+  | .tupCall x y => 17 + annLen x + annLen y
 
 /-! ### field and class level -/
 
@@ -485,7 +549,7 @@ def tryDefault (O : Oracles) (d : FieldDecl) (v : PyVal) : R Unit :=
 
 /-- expressions that are a call of a Field class, so that `default=` can be written inside -/
 def kwAllowed : Sp → Bool
-  | .finst _ | .lit _ _ | .bareInst _ | .call _ _ | .mapCall _ _ | .mapInst => true
+  | .finst _ | .lit _ _ | .bareInst _ | .call _ _ | .mapCall _ _ | .mapInst | .tupCall _ _ => true
   | _ => false
 
 /-- extra characters `default=v` adds to the call -/
@@ -552,7 +616,7 @@ def afterGtli (O : Oracles) (fs : FieldSp) (r : Option FieldDecl) : R FieldRes :
 
 /-- `add_annotations_to_class_dict` for one evaluated annotation -/
 def annField (O : Oracles) (tm : TypeMap) (fs : FieldSp) (o : Obj) : R FieldRes :=
-  if isFieldObj o then bindE (getItem tm o) fun d => finishField O d fs.inOptional fs.dflt
+  if isFieldObj o || isSclsObj o then bindE (getItem tm o) fun d => finishField O d fs.inOptional fs.dflt
   else bindE (gtli tm o) fun r => afterGtli O fs r
 
 /-- a field object found in the class body (its `default=`, if any, was handled by `applyKw`) -/
@@ -578,6 +642,8 @@ def assignField (tm : TypeMap) (fs : FieldSp) (o : Obj) : R FieldRes :=
     | .uType _ => .error .typeErr
     | .noneV => .ok .dropped
     | .noneTy => .error .typeErr
+    /- `name = Owner`: wrapped in a `ClassReference` -/
+    | .scls d => finishFieldNoCheck d fs.inOptional dflt
 
 /-- one field of the class body.  `future` = the module has `from __future__ import annotations`: the
     annotation is then stored as text and evaluated by `_evaluate_if_future_annotations` whatever its
